@@ -186,6 +186,26 @@ Theorem C30_read_after_write_same_request : forall rules req v ws lms t b,
 Proof. exact view_read_after_write_same_request. Qed.
 Print Assumptions C30_read_after_write_same_request.
 
+(* ... with nulls INSIDE v - PARTIAL. Full statement: Get returns v with the null members stripped (they became Unsets or
+   were removed by JSONDataBag.Set). Proved: when no written part is itself null (Forall is_set ws: nulls lie strictly
+   inside the parts, where JSONDataBag.Set strips them), Get of req returns v' = v with all nulls purged - under the extra
+   hypothesis that the unused-branch check also passes on v' (last hypothesis). That hypothesis follows informally from the
+   check passing on v when no part is null (pruning never looks inside a part), but this implication is NOT proved.
+   Not covered: a part that is itself null (it becomes an Unset delta; see ex_null_part for what then happens). *)
+Theorem C30_read_after_write_same_request_nulls_partial : forall rules req v v' ws lms t b,
+  set_writes rules req v = (ROk, ws) -> Forall is_set ws ->
+  matches readable rules req = matches writeable rules req ->
+  literal_matches (matches writeable rules req) = Some lms ->
+  (forall ws1 d ws2, ws = ws1 ++ d :: ws2 -> forall d', In d' ws2 -> is_prefix (fst d) (fst d') = false) ->
+  apply_deltas (tx_pristine t) (tx_deltas t) = Some b ->
+  wf_tree v = true -> purge v = Some v' ->
+  NoDup (map snd (sort_by snd lms)) ->
+  (forall s s', In s (map snd lms) -> In s' (map snd lms) -> s = s' \/ diverge s s' = true) ->
+  fold_left prune_step (rev (map snd (sort_by snd lms))) (Some (Some v')) = Some None ->
+  view_get rules (tx_get (add_deltas t ws)) req = VOk v'.
+Proof. exact view_read_after_write_same_request_nulls. Qed.
+Print Assumptions C30_read_after_write_same_request_nulls_partial.
+
 Theorem C30_merge_rebuilds_value : forall L cur, wf_tree cur = true -> pw_div L ->
   (forall s, In s L -> value_at s cur <> None) ->
   fold_left prune_step L (Some (Some cur)) = Some None ->
@@ -307,3 +327,19 @@ Proof. reflexivity. Qed.
 Example ex_three_get :
   view_get ex_three (tx_get (add_deltas (mkTx [] []) (snd (set_writes ex_three [97] ex_three_v)))) [97] = VOk ex_three_v.
 Proof. reflexivity. Qed.
+
+(* nulls inside a part: stripped by the write, Get returns the stripped value; the extra hypothesis holds *)
+Definition ex_nulls_v : tree := Obj [(98, Obj [(100, Null); (101, Atom 1%Z)]); (99, Atom 2%Z)].
+Example ex_nulls_inside :
+  view_get ex_two (tx_get (add_deltas (mkTx [] []) (snd (set_writes ex_two [97] ex_nulls_v)))) [97] =
+  VOk (Obj [(98, Obj [(101, Atom 1%Z)]); (99, Atom 2%Z)]).
+Proof. reflexivity. Qed.
+Example ex_nulls_inside_check :
+  fold_left prune_step (rev [[98]; [99]]) (Some (Some (Obj [(98, Obj [(101, Atom 1%Z)]); (99, Atom 2%Z)]))) = Some None.
+Proof. reflexivity. Qed.
+(* a part that is itself null becomes an Unset delta: the member is gone from what Get returns (= v stripped) *)
+Example ex_null_part :
+  set_writes ex_two [97] (Obj [(98, Null); (99, Atom 2%Z)]) = (ROk, [([112], Null); ([113], Atom 2%Z)]) /\
+  view_get ex_two (tx_get (add_deltas (mkTx [(112, Atom 7%Z)] []) [([112], Null); ([113], Atom 2%Z)])) [97] =
+  VOk (Obj [(99, Atom 2%Z)]).
+Proof. split; reflexivity. Qed.
